@@ -97,7 +97,21 @@ def _case(ctx, clauses, qname, qargs, rng, counters):
     return result_from_diff(d, nt, key, counters, sample)
 
 
+def big_table_case(rng):
+    n = rng.choice([1100, 1100, 1300])
+    facts = [(C('colour', A('c%d' % i), A('v%d' % (i % 7))), ('true',)) for i in range(n)]
+    facts.append((C('wanted', A('c%d' % (n - 10))), ('true',)))
+    facts.append((C('wanted', A('c5')), ('true',)))
+    facts.append((C('pick', V('K'), V('Vv')), ('and', ('call', C('wanted', V('K'))), ('call', C('colour', V('K'), V('Vv'))))))
+    q = rng.choice([('colour', [A('c%d' % (n - 10)), V('Q0')]), ('pick', [V('Q0'), V('Q1')]), ('colour', [A('c%d' % (n - 10)), A('v%d' % ((n - 10) % 7))]),
+                    ('colour', [V('Q0'), A('v3')])])
+    return facts, q[0], q[1]
+
+
 def run_case(ctx, seed, idx, tier):
+    if idx >= ctx['exh'] and (idx - ctx["exh"]) % 3000 == 7:
+        clauses, qn, qargs = big_table_case(random.Random(seed * 31 + idx))
+        return _case(ctx, clauses, qn, qargs, None, {'big_fact_tables': 1})
     if idx < ctx['exh']:
         clauses, qn, qargs = exh_case(idx)
         return _case(ctx, clauses, qn, qargs, None, {'exhaustive_cases': 1})
